@@ -86,6 +86,10 @@ def gn_step_oracle(ctx, case, g, ff, S_, check_report=True, fixed=None):
             if gs.kind_of(v.pose) == "se3" and float(np.linalg.norm(full[s][3:])) >= 0.9:
                 ctx.event("discarded:rot-step>=0.9")
                 return True
+            if gs.kind_of(v.pose) == "se2" and abs(float(full[s][2])) >= 3.0:
+                # an angular step beyond +-pi cannot be recovered from the wrapped angles
+                ctx.event("discarded:se2-rot-step>=3")
+                return True
 
     ret, _ = optimize_quiet(g, tol=0.0, max_iter=1, fix_first_pose=ff, verbose=False)
     if not all_finite(g):
